@@ -265,3 +265,35 @@ def frames_leg(ck, rnd, tier):
             ck.cov['traces_validated_against_impl'] += 1
             ck.nontrivial(('frame', c['product'], tuple(tuple(v['c']) for v in c['since']), tuple(tuple(v['c']) for v in c['till'])))
     ck.notes.append('compatibility ranges: %d sets of releases replayed into Timeframe' % len(cases))
+    # database-shaped updates: every entry names a release per product (OpenSSH and Dropbear at once); the range of each product is
+    # the range over its own releases, however the other product's releases repeat or differ
+    pool_o = [[2, 5, 0], [6, 6], [6, 5], [7, 4], [9, 9], [10, 0]]
+    pool_d = [[0, 28], [0, 47], [0, 52], [2013, 56], [2018, 76], [2020, 79]]
+    joint, jcases = [], []
+    for _ in range(150 if tier == 'quick' else 1500):
+        k = rnd.randint(2, 4)
+        entries = [(rnd.choice(pool_o), rnd.choice(pool_d)) for _ in range(k)]
+        joint.append(entries)
+        jcases.append({'product': 'OpenSSH', 'since': [{'c': o, 'p': ['none', 0]} for o, _ in entries], 'till': []})
+        jcases.append({'product': 'Dropbear SSH', 'since': [{'c': d, 'p': ['none', 0]} for _, d in entries], 'till': []})
+    res = tlc.run('SshVersion', 'SPECIFICATION Spec\nCONSTANT Mode = "frames"\nINVARIANT EmitFrames\n', generated={'cases.json': json.dumps(jcases)},
+                  env={'VERIF_CASES': 'cases.json'}, workers=1)
+    ck.add_tlc(res)
+    common.require(res.ok, 'SshVersion (frames, joint): %s' % res.error_text)
+    jexp = [p for p in res.prints if isinstance(p, list)]
+    common.require(len(jexp) >= 1 and len(jexp[0]) == len(jcases), 'TLC did not emit the expected joint compatibility frames')
+    jexp = jexp[0]
+    dot = lambda v: '.'.join(str(x) for x in v)
+    for i, entries in enumerate(joint):
+        ck.evaluated()
+        tf = Timeframe()
+        for o, d in entries:
+            tf.update([dot(o) + ',d' + dot(d)], True)
+        got = (tf.get_from('OpenSSH', True), tf.get_from('Dropbear SSH', True))
+        want = (dot(jexp[2 * i]['from']), dot(jexp[2 * i + 1]['from']))
+        if got != want:
+            ck.violation('compatibility-range joint-entries', 'entries (OpenSSH, Dropbear) %r give first-appeared %r, numeric order per product gives %r'
+                         % ([(dot(o), dot(d)) for o, d in entries], got, want), {'entries': entries, 'tool': got, 'expected': want})
+        else:
+            ck.cov['traces_validated_against_impl'] += 1
+            ck.nontrivial(('joint-frame', tuple((tuple(o), tuple(d)) for o, d in entries)))
